@@ -48,7 +48,8 @@ def run(tier):
     # --- declarations vs header bookkeeping
     for db in ("zonedb", "zonedbx"):
         d = meta[db]
-        if d["counts"].get("Supported zones") != len(d["zones"]) or d["counts"].get("Supported links") != len(d["links"]):
+        cz, cl = d["counts"].get("Supported zones"), d["counts"].get("Supported links")
+        if (cz is not None and cz != len(d["zones"])) or (cl is not None and cl != len(d["links"])):
             v.violation("c11:header-count-mismatch", "%s: 'Supported zones/links' counters != declarations" % db,
                         {"counts": d["counts"], "zones": len(d["zones"]), "links": len(d["links"])})
         if len(d["ids"]) != len(d["zones"]) or {n for _, _, n in d["ids"]} != {n for _, n in d["zones"]}:
